@@ -14,51 +14,51 @@ Ltac fin := rewrite ?repair; reflexivity.
 
 (* ---------- the four done-callbacks ---------- *)
 
-Lemma handle_middleware_result_tie : forall handler up s0 id rq rest,
+Lemma handle_middleware_result_tie : forall handler up ucf s0 id rq rest,
   take_task id (pending s0) = (Some (TMw (rq_line rq)), rest) ->
-  (forall allow text, task_done handler up s0 id (OMw allow text) =
+  (forall allow text, task_done handler up ucf s0 id (OMw allow text) =
      gen_handle_middleware_result send_error send_rejection (fun s r => route handler s (rq_line r)) (set_pending s0 rest) (TRet (allow, text)) rq) /\
-  (forall m, task_done handler up s0 id (ORaise m) =
+  (forall m, task_done handler up ucf s0 id (ORaise m) =
      gen_handle_middleware_result send_error send_rejection (fun s r => route handler s (rq_line r)) (set_pending s0 rest) (TExc m) rq).
 Proof.
-  intros handler up s0 id rq rest H. unfold task_done, gen_handle_middleware_result. rewrite H.
+  intros handler up ucf s0 id rq rest H. unfold task_done, gen_handle_middleware_result. rewrite H.
   cbv beta iota zeta. split.
   - intros [|] text; cbn [negb]; fin.
   - intros m. fin.
 Qed.
 
-Lemma handle_titan_middleware_result_tie : forall handler up s0 id rest,
+Lemma handle_titan_middleware_result_tie : forall handler up ucf s0 id rest,
   take_task id (pending s0) = (Some TTitanMw, rest) ->
-  (forall allow text, task_done handler up s0 id (OMw allow text) =
-     gen_handle_titan_middleware_result send_error send_rejection (start_upload up) (set_pending s0 rest) (TRet (allow, text))) /\
-  (forall m, task_done handler up s0 id (ORaise m) =
-     gen_handle_titan_middleware_result send_error send_rejection (start_upload up) (set_pending s0 rest) (TExc m)).
+  (forall allow text, task_done handler up ucf s0 id (OMw allow text) =
+     gen_handle_titan_middleware_result send_error send_rejection (start_upload up ucf) (set_pending s0 rest) (TRet (allow, text))) /\
+  (forall m, task_done handler up ucf s0 id (ORaise m) =
+     gen_handle_titan_middleware_result send_error send_rejection (start_upload up ucf) (set_pending s0 rest) (TExc m)).
 Proof.
-  intros handler up s0 id rest H. unfold task_done, gen_handle_titan_middleware_result. rewrite H.
+  intros handler up ucf s0 id rest H. unfold task_done, gen_handle_titan_middleware_result. rewrite H.
   cbv beta iota zeta. split.
   - intros [|] text; cbn [negb]; fin.
   - intros m. fin.
 Qed.
 
-Lemma handle_async_handler_result_tie : forall handler up s0 id rq rest,
+Lemma handle_async_handler_result_tie : forall handler up ucf s0 id rq rest,
   take_task id (pending s0) = (Some (THandler (rq_line rq)), rest) ->
-  (forall r, task_done handler up s0 id (OResp r) =
+  (forall r, task_done handler up ucf s0 id (OResp r) =
      gen_handle_async_handler_result send_error send_response (set_pending s0 rest) (TRet r) rq) /\
-  (forall m, task_done handler up s0 id (ORaise m) =
+  (forall m, task_done handler up ucf s0 id (ORaise m) =
      gen_handle_async_handler_result send_error send_response (set_pending s0 rest) (TExc m) rq).
 Proof.
-  intros handler up s0 id rq rest H. unfold task_done, gen_handle_async_handler_result. rewrite H.
+  intros handler up ucf s0 id rq rest H. unfold task_done, gen_handle_async_handler_result. rewrite H.
   cbv beta iota zeta. split; intro; fin.
 Qed.
 
-Lemma handle_titan_upload_result_tie : forall handler up s0 id rest,
+Lemma handle_titan_upload_result_tie : forall handler up ucf s0 id rest,
   take_task id (pending s0) = (Some TUpload, rest) ->
-  (forall r, task_done handler up s0 id (OResp r) =
+  (forall r, task_done handler up ucf s0 id (OResp r) =
      gen_handle_titan_upload_result send_error send_response (set_pending s0 rest) (TRet r)) /\
-  (forall m, task_done handler up s0 id (ORaise m) =
+  (forall m, task_done handler up ucf s0 id (ORaise m) =
      gen_handle_titan_upload_result send_error send_response (set_pending s0 rest) (TExc m)).
 Proof.
-  intros handler up s0 id rest H. unfold task_done, gen_handle_titan_upload_result. rewrite H.
+  intros handler up ucf s0 id rest H. unfold task_done, gen_handle_titan_upload_result. rewrite H.
   cbv beta iota zeta. split; intro; fin.
 Qed.
 
